@@ -75,6 +75,7 @@ class Agent:
         self._stop = False
         self._thr = None
         self.errors = []       # exceptions inside the handler (harness errors)
+        self.busy = False
         self.client_addr = None
 
     # -- lifecycle
@@ -107,11 +108,13 @@ class Agent:
                 continue
             except OSError:
                 break
+            self.busy = True
             self.client_addr = addr
             req = self.parse(data)
             self.reqs.append(req)
             self.log.append(("rx", time.perf_counter_ns(), data))
             if not self.handler:
+                self.busy = False
                 continue
             try:
                 out = self.handler(self, req)
@@ -120,6 +123,7 @@ class Agent:
                 self.errors.append(traceback.format_exc())
                 out = None
             if out is None:
+                self.busy = False
                 continue
             if isinstance(out, (bytes, bytearray)):
                 out = [(0, out)]
@@ -131,6 +135,14 @@ class Agent:
                     if rest > 0:
                         time.sleep(rest)
                 self.send(dg, addr)
+            self.busy = False
+
+    def wait_idle(self, timeout=5.0):
+        """Block until the agent thread has sent everything its last handler call returned."""
+        t_end = time.time() + timeout
+        while self.busy and time.time() < t_end:
+            time.sleep(0.0005)
+        return not self.busy
 
     def send(self, dg, addr=None):
         try:
